@@ -139,3 +139,14 @@ Proof.
   split; [|vm_compute; reflexivity].
   repeat apply Forall_cons; try apply Forall_nil; cbn [wf_op_late]; try exact I; split; try (unfold ttl_ok; vm_compute; discriminate); vm_compute; split; congruence.
 Qed.
+
+(* the two scheduling decisions of cache.cpp are regenerated from the source on every run (SrcDecisions.v: the condition
+   under which addRecord re-arms the timer, and the condition under which onTimeout counts a trigger as reached); the
+   theorems above are about a model that calls those generated definitions, and they are what the property needs: *)
+Theorem C05_scheduling_decisions_read_from_the_source :
+  (forall (cn : option Z) t0 now,
+     match cn with None => cache_rearm true t0 0 now | Some n => cache_rearm false t0 n now end =
+     match cn with Some n => t0 <? n | None => true end) /\
+  (forall t now, cache_trigger_passed t now = (t <=? now)).
+Proof. split; [exact rearm_match|exact trigger_passed_spec]. Qed.
+Print Assumptions C05_scheduling_decisions_read_from_the_source.
